@@ -1,4 +1,4 @@
-    broadcast use {lemma_llv_bound_fits, lemma_or_f0_and_0f, lemma_and_0f_le};
+    broadcast use {crate::frame::lemma_tail_intro, crate::frame::lemma_tail_elim, crate::frame::lemma_tail_refl, lemma_llv_bound_fits, lemma_or_f0_and_0f, lemma_and_0f_le};
 
     /// Contract of a length-prefix style (C16; used by C01, C03, C14).
     pub trait Length {
